@@ -16,6 +16,36 @@ def main():
 
     rng = ck.rng
     accs = list(Accelerator)            # same order as Gen.accelerators (both iterate the enum)
+
+    # hardware limit (16 MiB = 2^22 command words, the width of the queue-size register): a stream at or beyond it
+    # must be rejected where it is generated. Needs a real stream of that size (~20 s), so it runs in a forked
+    # child next to the rest of the check. Thorough: also a stream just below the limit, which must be accepted.
+    from concurrent.futures import ProcessPoolExecutor
+    import multiprocessing
+
+    def hw_limit_probe(over):
+        def make_ops(n):
+            return [api.NpuDmaOperation(api.NpuAddressRange(i % 2, (i * 32) % (1 << 20), 16 + 16 * (i % 7)),
+                                        api.NpuAddressRange(2 + (i % 3) % 2, (1 << 20) + (i * 48) % (1 << 20), 16 + 16 * (i % 7)))
+                    for i in range(n)]
+        acc = api.NpuAccelerator.Ethos_U55_128
+        per_op = len(api.npu_generate_register_command_stream(make_ops(2000), acc)) / 2000
+        target = (1 << 22) + 4096 if over else (1 << 22) - 8192
+        n = int(target / per_op) + (1 if over else 0)
+        try:
+            words = api.npu_generate_register_command_stream(make_ops(n), acc)
+        except VelaError as e:
+            return ("rejected", n, 0, str(e)[:120])
+        out = ["generated", n, len(words), ""]
+        try:
+            b = api.npu_create_driver_payload(words, acc)
+            out[3] = "framed %d bytes" % len(b)
+        except VelaError as e:
+            out[0], out[3] = "rejected-framing", str(e)[:120]
+        return tuple(out)
+
+    pool = ProcessPoolExecutor(2, mp_context=multiprocessing.get_context("fork"))
+    hw_futs = [(True, pool.submit(hw_limit_probe, True))] + ([(False, pool.submit(hw_limit_probe, False))] if ck.thorough else [])
     npu_accs = {a: [n for n in api.NpuAccelerator if Accelerator.from_npu_accelerator(n) == a][0] for a in accs}
 
     def rand_word():
@@ -115,6 +145,19 @@ def main():
         ck.violation(f"Lean Spec rejects the real payload ({o}) for accelerator {accs[ai].value}, {len(ws)} words",
                      {"accelerator": accs[ai].value, "words": ws[:64], "n_words": len(ws),
                       "payload_hex": blobs[i][:256].hex(), "spec_verdict": o})
+    for over, fut in hw_futs:
+        kind, nops, nwords, note = fut.result()
+        ck.count(f"hw_limit_probe_{'over' if over else 'under'}_{kind}")
+        if over and nwords and nwords < (1 << 22):
+            raise common.InfraError(f"hardware-limit probe built only {nwords} words")
+        if over and kind not in ("rejected", "rejected-framing"):
+            ck.violation(f"a command stream of {nwords} words ({nwords * 4} bytes, hardware limit 2^24 bytes) built from {nops} DMA "
+                         f"operations through npu_generate_register_command_stream was neither rejected there nor when framed ({note})",
+                         {"ops": nops, "words": nwords, "how": "harness/check_C17.py hw_limit_probe(True)"})
+        if not over and kind != "generated":
+            ck.violation(f"a command stream just below the hardware limit ({nops} DMA operations) was rejected: {note}",
+                         {"ops": nops, "how": "harness/check_C17.py hw_limit_probe(False)"})
+    pool.shutdown()
     if limit_out != "err:vela":
         ck.violation("a 2^24-word stream is not rejected by create_driver_payload", {"len": 1 << 24, "result": limit_out})
     if disagreements and not spec_fail:
